@@ -4,7 +4,7 @@ use asca::{ASCAError, Error, RuleGroup};
 use serde_json::{json, Value};
 
 /// (fault line, needs these words to fire (runtime) or None (syntax))
-const RULE_FAULTS: [&str; 65] = [
+const RULE_FAULTS: [&str; 73] = [
     // syntax
     "a >", "> a", "a > e / _ _", "a > e / ##_", "a > e / _#s", "[+foo] > a", "a > [+", "a > e / (C,2:1)_", "a > e ;x", "a => ", "a > e / p", "{a > e", "a > e / _)", "a > [tone:12345]", "a > e / :{ _a",
     "* > *", "* > &", "a > * e", "a > & e", "a = e", "C=x > 1", "a:[+long > e", "a > e | ", "a, b > c, d, e", "a > e / _, b_, c_", "a > (e)", "a > ...", "a > e / _,", "a > [+voice", "a > e / _ / _", "a > %:[+voice]", "a > e / [tone:5]:", "& > a",
@@ -13,6 +13,8 @@ const RULE_FAULTS: [&str; 65] = [
     // two-position runtime errors whose first element is much wider than the second (the marker line must still fit the line)
     "%:[+stress] > a", "%:[+stress] > a / _#", "%:[+stress, -sec.stress] > a", "⟨ta⟩:[+stress] > a", "%:[tone: 51] > e", "%:[+stress] > a:[+long, -nasal]", "{p,t}:[-voice, -long] > {b}", "a:[-long, -nasal] > {e}",
     "a:[-long, -stress] % > &", "$ %:[-sec.stress] > &", "a:[-long, -nasal, -stress] > 1", "a:[-long, -nasal, -stress] > [-αvoice]",
+    // unbalanced condensed rules: every part that can be out of step (inputs / outputs / contexts / exceptions), with and without the other clause
+    "p, t, k > b | _a, _i", "p, t, k > b // _a, _i", "p, t, k > b / _# | _a, _i", "p, t, k > b / _a, _i | _#", "p, t, k > b / _a, _i", "p, t > b, d, g", "p, t, k > b, d", "p, t, k > b, d / _a | _i",
 ];
 const FILLER: [&str; 6] = ["ɮ > l", ";; a comment line", "", "ŋʘ > ŋǀ / _#", "   ", "q > k | _#"];
 const WORDS: [&str; 4] = ["pa.ta", "a", "ˈta", "ta51"];
@@ -107,7 +109,7 @@ fn base_projects() -> Vec<Vec<Vec<&'static str>>> {
 
 pub fn run() -> i32 {
     let mut r = Report::new("C17");
-    r.rule = "fault catalogue of 65 rule faults (33 syntax, 32 runtime, 12 of them two-position errors with a wide first element) covering the RuleSyntaxError / RuleRuntimeError variants reachable from text, planted into 3 valid rule-group lists (1-3 groups x 1-3 lines, with blank, whitespace-only and comment lines) at every (group, line) position in three ways (replace the line, insert before, insert after); 14 alias faults at every line of a two-line deromaniser and romaniser; 8 word faults at every index of a 4-word list. Oracle: run is Err, the matching formatter does not panic, the reported rule group / line (alias kind / line, word) is the planted one and exists, the quoted line is the faulty line, and the caret line fits in [0, chars(line)+1]. Non-trivial = error located at the planted position.".into();
+    r.rule = "fault catalogue of 73 rule faults (33 syntax, 40 raised at application time, 12 of them two-position errors with a wide first element, 8 unbalanced condensed rules) covering the RuleSyntaxError / RuleRuntimeError variants reachable from text, planted into 3 valid rule-group lists (1-3 groups x 1-3 lines, with blank, whitespace-only and comment lines) at every (group, line) position in three ways (replace the line, insert before, insert after); 14 alias faults at every line of a two-line deromaniser and romaniser; 8 word faults at every index of a 4-word list. Oracle: run is Err, the matching formatter does not panic, the reported rule group / line (alias kind / line, word) is the planted one and exists, the quoted line is the faulty line, and the caret line fits in [0, chars(line)+1]. Non-trivial = error located at the planted position.".into();
     let mut a = Acc::default();
     for proj in base_projects() {
         for g in 0..proj.len() { for l in 0..proj[g].len() { for mode in 0..3 { for fault in RULE_FAULTS {
